@@ -199,6 +199,9 @@ impl Sink {
     pub fn done(&mut self, what: &str) {
         if !self.completed.iter().any(|c| c == what) {
             self.completed.push(what.to_string());
+            if std::env::var_os("RBPF_MC_TIMING").is_some() {
+                eprintln!("TIMING {:.1}s done: {}", self.elapsed_s(), what);
+            }
         }
     }
 
